@@ -372,7 +372,7 @@ def run_cases(ctx, ncases, with_model):
         except Exception as e:
             model = "unparsed (%s)" % e
         impl = status if status != "ok" else "cell %s, %d atoms, first atoms %s" % (list(res.lattice.abcABG()), len(res),
-                                                                                  [[a.tag] + list(a.xyz) for a in res[:3]])
+                                                                                  [[getattr(a, "tag", -1)] + list(a.xyz) for a in res[:3]])
         detail = "model: %s ; implementation: %s ; case %s" % (model, impl, json.dumps(case)[:1200])
         ctx.sample({"disagreement": detail[:600]})
     ctx.obligation("correspondence:supercell-model-vs-implementation", not badidx, detail)
@@ -387,7 +387,7 @@ def expected_list(status, res):
         return [2]
     out = [1] + [float(x) for x in res.lattice.abcABG()] + [float(x) for x in numpy.array(res.lattice.baserot, dtype=float).reshape(9)]
     for g in res:
-        out += [int(g.tag)] + [float(x) for x in g.xyz]
+        out += [int(getattr(g, "tag", -1))] + [float(x) for x in g.xyz]
     return out
 
 
